@@ -434,7 +434,8 @@ PROPS = {
         design=[(CORE, [Q1], ["MC_RainCore_small.cfg", "MC_RainCore_pins.cfg"]), REOPEN],
         switches=[("Bug_RangeMin", CORE, "MC_RainCore_range.cfg", None),
                   ("Bug_FlushLevelUnsafe", CORE, Q1, "ReadCorrect"),
-                  ("Bug_SeqFromManifestOnly", REO, REOQ, "RSeqSane")],
+                  ("Bug_SeqFromManifestOnly", REO, REOQ, "RSeqSane"),
+                  ("Bug_CloseInstallsPartial", REO, REOQ, "RReadCorrect")],
         work=[dict(driver="hist", args=["--nops", "60", "--per-file", "6"], quick=48, thorough=1200),
               # narrow, staircase-like overlapping level-0 files (key locality + frequent flushes)
               dict(driver="hist", args=["--nops", "80", "--per-file", "6", "--profile", "local",
@@ -485,7 +486,8 @@ PROPS = {
         design=[(CORE, [Q1], ["MC_RainCore_small.cfg"]), REOPEN],
         switches=[("Bug_RangeMin", CORE, "MC_RainCore_range.cfg", None),
                   ("Bug_FlushDeepDuringCompaction", CORE, "MC_RainCore_gap.cfg", None),
-                  ("Bug_SnapshotSwapsBounds", REO, REOQ, "RWellFormed")],
+                  ("Bug_SnapshotSwapsBounds", REO, REOQ, "RWellFormed"),
+                  ("Bug_MoveRecordLosesDelete", REO, REOQ, "ManifestMatches")],
         work=[dict(driver="hist", args=["--nops", "60", "--per-file", "6", "--reopen-bias", "1"],
                    quick=48, thorough=1000),
               dict(driver="crash", args=["--nops", "30", "--threads", "2", "--every", "3"],
@@ -499,8 +501,9 @@ PROPS = {
                                         "--nkeys", "12", "--compact-bias", "1", "--seek-bias", "1"],
                    quick=32, thorough=800)]),
     "C11": dict(
-        design=[(CORE, [Q1], ["MC_RainCore_small.cfg", "MC_RainCore_pins.cfg"])],
-        switches=[("Bug_DeletePending", CORE, Q1, "NothingLiveDeleted"),
+        design=[(CORE, [Q1], ["MC_RainCore_small.cfg", "MC_RainCore_pins.cfg"]), REOPEN],
+        switches=[("Bug_OpenKeepsOldLogNumber", REO, REOQ, "NoDeadLogAfterPass"),
+                  ("Bug_DeletePending", CORE, Q1, "NothingLiveDeleted"),
                   ("Bug_DeletePinned", CORE, "MC_RainCore_pins.cfg", "NothingLiveDeleted")],
         work=[dict(driver="hist", args=["--nops", "60", "--per-file", "6", "--max-iters", "3",
                                         "--compact-bias", "1"], quick=48, thorough=1000),
